@@ -374,8 +374,14 @@ class TrajectoryCalc:
         # region Trajectory Loop
         warnings.simplefilter("once")  # used to avoid multiple warnings in a loop
         it = 0  # iteration counter
-        while range_vector.x <= maximum_range + min_step:
+        # A step can advance further than min_step (tail wind), and the accumulated record distance can exceed
+        # maximum_range by float rounding: besides the min_step slack, keep going until a point beyond the range
+        # has been offered to the filter, so that the record at maximum_range cannot be jumped over
+        last_x = range_vector.x - 1.0  # x of the last point offered to the filter
+        range_limit = maximum_range * (1 + 1e-9)
+        while range_vector.x <= maximum_range + min_step or last_x <= range_limit:
             it += 1
+            last_x = range_vector.x
             data_filter.clear_current_flag()
 
             # Update wind reading at current point in trajectory
